@@ -48,6 +48,13 @@ class P(Prop):
                 sg[i + 1][1:] = sg[i][1:]
             s = rng.choice([0.0, -0.0, 1.0, -1.0, 2.0, 1e-300, 1e300, 1e-17, rng.uniform(-3, 3), rng.f64_loguniform(-30, 30)])
             out.append(dict(op=op, ty=ty, segs=sg, s=C.bits(s), meta={"class": op + "/" + ty.split("<")[0]}))
+        # Piecewise<PolyN>: pieces of different lengths, including the empty polynomial (the zero function)
+        for _ in range(12 if tier == "quick" else 150):
+            k = rng.randint(1, 8)
+            es = G.ends(rng, k)
+            sg = [[C.bits(e)] + [C.bits(G.coeff(rng)) for _ in range(rng.choice([0, 0, 1, 2, 5]))] for e in es]
+            s = rng.choice([0.0, 3.5, -1.0, 1e300, rng.uniform(-3, 3)])
+            out.append(dict(op="pw_translate_polyn", ty="PolyN", segs=sg, s=C.bits(s), meta={"class": "pw_translate/PolyN"}))
         return out
 
     def coq_term(self, case, h):
@@ -63,6 +70,8 @@ class P(Prop):
             return "run_pw_map [] [] %s %s [%d]" % (C.kname("Segment<%s>::translate" % ty), C.zlistlist(case["segs"]), case["s"])
         if op == "pw_neg":
             return "run_pw_neg [] [] %s %s" % (C.kname("%s::neg" % ty), C.zlistlist(case["segs"]))
+        if op == "pw_translate_polyn":
+            return "run_pw_translate_polyn %s %d" % (C.zlistlist(case["segs"]), case["s"])
         return None
 
     def oracle(self, case, h):
@@ -82,6 +91,23 @@ class P(Prop):
             return None
         segs = case["segs"]
         r = h["r"]
+        if op == "pw_translate_polyn":
+            if r[0] != len(segs):
+                return "translate changed the number of pieces: %d -> %d" % (len(segs), r[0])
+            pos = 1
+            s = C.fl(case["s"])
+            for i, sg in enumerate(segs):
+                e, m = r[pos], r[pos + 1]
+                got = r[pos + 2: pos + 2 + m]
+                pos += 2 + m
+                cs = [C.fl(b) for b in sg[1:]]
+                exp = [cs[0] + s] + cs[1:] if cs else [s]      # the empty polynomial is the zero function: 0 + c = c
+                if C.canon(e) != C.canon(sg[0]):
+                    return "translate: piece %d breakpoint changed" % i
+                if [C.canon(g) for g in got] != [C.canon(C.bits(x)) for x in exp]:
+                    return "translate(%r): PolyN piece %d %r became %r, expected %r (f+c must add c at every x)" % (
+                        s, i, cs, [C.fl(g) for g in got], exp)
+            return None
         n = G.arity(case["ty"])
         if r[0] != len(segs):
             return "%s changed the number of pieces: %d -> %d" % (op, len(segs), r[0])
